@@ -5,6 +5,7 @@ import (
 	"os"
 	"runtime"
 	"sort"
+	"strings"
 )
 
 func main() {
@@ -13,6 +14,17 @@ func main() {
 		os.Exit(2)
 	}
 	switch os.Args[1] {
+	case "check":
+		tier := "quick"
+		if t := os.Getenv("VERIF_TIER"); t != "" {
+			tier = t
+		}
+		for i := 3; i < len(os.Args); i++ {
+			if os.Args[i] == "--tier" && i+1 < len(os.Args) {
+				tier = os.Args[i+1]
+			}
+		}
+		os.Exit(runCheck(os.Args[2], tier))
 	case "run":
 		w, err := LoadWorld("/repo", "/verif/harness")
 		if err != nil {
@@ -23,6 +35,9 @@ func main() {
 		pool := NewSolverPool("z3", 60000)
 		defer pool.CloseAll()
 		opts := &RunOpts{InitPkgs: []string{"util", "store", "compress", "cache"}}
+		if len(os.Args) > 4 {
+			opts.InitPkgs = strings.Split(os.Args[4], ",")
+		}
 		hr, err := w.RunHarness(os.Args[2], os.Args[3], opts, pool, runtime.NumCPU(), 100000)
 		printHR(hr)
 		if err != nil {
